@@ -27,6 +27,8 @@ import (
 	"fmt"
 	"os"
 	"path/filepath"
+	"runtime"
+	"runtime/debug"
 	"sort"
 	"strconv"
 	"strings"
@@ -651,7 +653,7 @@ func (h *c01hist) cellF(sheet string, far bool) (string, int, int) {
 		return n, c, r
 	}
 	if h.rng.Chance(4) {
-		c = h.rng.Pick2([]int{26, 27, 702, 27, 26, 703, 52, 16384})
+		c = h.rng.Pick2([]int{26, 27, 702, 27, 26, 703, 52, 256}) // XFD: see c01farCell (a row of 16384 cells per touched row is too heavy inside histories)
 	}
 	if h.rng.Chance(3) {
 		r = h.rng.Pick2([]int{99, 1000, 99, 100, 5000})
@@ -1138,6 +1140,9 @@ func c01runHist(r *Run, seed uint64, idx, nops, flags int, rec bool) (sig, what 
 }
 
 func c01history(r *Run, seed uint64, idx, nops, flags int) {
+	if idx%20 == 0 {
+		runtime.GC()
+	}
 	if os.Getenv("C01_DEBUG") != "" {
 		fmt.Fprintf(os.Stderr, "%s hist %d %d %d %d\n", time.Now().Format("15:04:05"), seed, idx, nops, flags)
 	}
@@ -1180,12 +1185,21 @@ func runC01(r *Run, rng *Rng, replay string) {
 		return
 	}
 	thorough := r.Tier == "thorough"
+	// a transient large worksheet must not raise the GC goal for the rest of the run
+	debug.SetMemoryLimit(3 << 30)
 	t0 := time.Now()
 	lap := func(name string) {
-		r.Notes = append(r.Notes, fmt.Sprintf("phase %s: %.1fs", name, time.Since(t0).Seconds()))
+		var ms runtime.MemStats
+		runtime.ReadMemStats(&ms)
+		r.Notes = append(r.Notes, fmt.Sprintf("phase %s: %.1fs (heap %d MB, sys %d MB, released %d MB)", name, time.Since(t0).Seconds(), ms.HeapAlloc>>20, ms.Sys>>20, ms.HeapReleased>>20))
+		if os.Getenv("C01_DEBUG") != "" {
+			fmt.Fprintln(os.Stderr, r.Notes[len(r.Notes)-1])
+		}
 		t0 = time.Now()
 	}
 	c01afterSave(r)
+	c01farCell(r)
+	lap("witnesses")
 	// 1. fixed boundary payloads through every string op
 	for i, s := range c01fixedPayloads() {
 		c01bm(r, s)
@@ -1194,10 +1208,11 @@ func runC01(r *Run, rng *Rng, replay string) {
 		c01setstr(r, s, i)
 		c01setdef(r, s)
 	}
+	lap("fixed-strings")
 	// 2. random payloads
 	nStr := 1500
 	if thorough {
-		nStr = 40000
+		nStr = 30000
 	}
 	for i := 0; i < nStr; i++ {
 		s := c01payload(rng)
@@ -1229,7 +1244,7 @@ func runC01(r *Run, rng *Rng, replay string) {
 	// 3. grids
 	nGrid := 700
 	if thorough {
-		nGrid = 20000
+		nGrid = 15000
 	}
 	for i := 0; i < nGrid; i++ {
 		g := c01genDense(rng)
@@ -1252,7 +1267,7 @@ func runC01(r *Run, rng *Rng, replay string) {
 	// 4. histories
 	nHist := 60
 	if thorough {
-		nHist = 2500
+		nHist = 900
 	}
 	for i := 0; i < nHist; i++ {
 		nops := rng.Range(20, 100)
@@ -1266,7 +1281,7 @@ func runC01(r *Run, rng *Rng, replay string) {
 	// its signature cannot mask anything else)
 	nMid := 12
 	if thorough {
-		nMid = 200
+		nMid = 80
 	}
 	for i := 0; i < nMid; i++ {
 		c01history(r, r.Seed, 100000+i, rng.Range(20, 60), (i&3)|8)
@@ -1305,6 +1320,39 @@ func c01afterSave(r *Run) {
 	}
 }
 
+// c01farCell: the last column / a far row survive a cycle (kept out of the random histories for cost).
+func c01farCell(r *Run) {
+	f := xl.NewFile()
+	defer f.Close()
+	// the far row first: prepareSheetXML sizes every appended row after the previous row's cell count
+	order := []string{"A3000", "XFD1", "XFD3", "XFC3"}
+	want := map[string]string{"XFD3": "corner _x0041_", "XFC3": "12.5", "A3000": " far row ", "XFD1": "1"}
+	for _, c := range order {
+		_ = f.SetCellStr("Sheet1", c, want[c])
+	}
+	_ = f.SetCellFloat("Sheet1", "XFC3", 12.5, -1, 64)
+	_ = f.SetCellInt("Sheet1", "XFD1", 1)
+	r.Case("farcell", true)
+	g, err := c01save(f, 0)
+	if err != nil {
+		r.Fail("farcell:save-error", err.Error(), 0, "farcell")
+		return
+	}
+	defer g.Close()
+	for c, v := range want {
+		a, _ := f.GetCellValue("Sheet1", c)
+		b, _ := g.GetCellValue("Sheet1", c)
+		if a != v || b != v {
+			r.Fail("farcell:save-open-changes-value", fmt.Sprintf("%s written %q, reads %q before and %q after save+open", c, v, a, b), 0, "farcell")
+		}
+	}
+	if rows, ok := c01parse(xl.VerifC01Rows(g, "Sheet1")); ok {
+		if _, dense := c01denseAbs(rows); !dense || len(rows) != 3000 {
+			r.Fail("farcell:not-dense", fmt.Sprintf("after open: %d row slots, dense=%v", len(rows), dense), 0, "farcell")
+		}
+	}
+}
+
 func c01replay(r *Run, path string) {
 	for _, line := range readLines(path) {
 		w := strings.Fields(line)
@@ -1329,6 +1377,8 @@ func c01replay(r *Run, path string) {
 			c01gridOp(r, "cycle", rest)
 		case "aftersave":
 			c01afterSave(r)
+		case "farcell":
+			c01farCell(r)
 		case "hist":
 			if len(w) == 5 {
 				seed, _ := strconv.ParseUint(w[1], 10, 64)
